@@ -53,7 +53,7 @@ def kind_value(kind, i, tab):
         return tab['decs4'][i] / 4
     if kind == 'N':
         return -tab['negs'][i]
-    return {'X': 'x', 'S': '12', 'T': True, 'F': False, 'E': ''}.get(kind)
+    return {'X': 'x', 'S': '12', 'T': True, 'F': False, 'E': '', 'H': '#41'}.get(kind)
 
 
 def setup(run, R):
@@ -340,7 +340,7 @@ def judge_events(run, evs, part, cols):
         run.traces_validated += 1
 
 
-TKINDS = 'IDNXSTFBE'
+TKINDS = 'IDNXSTFBEH'
 
 
 def _trace_job(seeds):
